@@ -421,3 +421,71 @@ vt_proof_pred! { unwind = 4; fn c14_is_null_float() {
     is_null_case(2, false, false); is_null_case(2, true, false); is_null_case(2, false, true); is_null_case(0, true, true); is_null_case(1, true, true);
     kani::cover!(true, "w:reached_end");
 }}
+
+// ---- LIKE. `CompiledPredicate::like_match` (hook `predicate::verif_hooks::like_match`; the method does not use the
+// predicate's state) against the textbook recursive definition: `%` any run of characters, `_` exactly one, anything else
+// itself. Through `evaluate(Expr::Like)` the matcher indexes heap strings at solver-chosen positions and the solver ran out
+// of 16 GB for 2-byte strings; called on stack arrays it is decided in seconds.
+use turdb::sql::predicate::verif_hooks as ph;
+fn any_ascii() -> u8 { let b: u8 = kani::any(); kani::assume(b < 0x80); b }
+fn r_like(t: &[u8], p: &[u8]) -> bool {
+    if p.is_empty() { return t.is_empty(); }
+    if p[0] == b'%' { return r_like(t, &p[1..]) || (!t.is_empty() && r_like(&t[1..], p)); }
+    !t.is_empty() && (p[0] == b'_' || p[0] == t[0]) && r_like(&t[1..], &p[1..])
+}
+fn like_shape<const TL: usize, const PL: usize>() {
+    let mut t = [0u8; TL]; let mut p = [0u8; PL];
+    let mut i = 0; while i < TL { t[i] = any_ascii(); i += 1; }
+    let mut i = 0; while i < PL { p[i] = any_ascii(); i += 1; }
+    let (ts, ps) = unsafe { (core::str::from_utf8_unchecked(&t), core::str::from_utf8_unchecked(&p)) };
+    assert!(ph::like_match(ts, ps, false) == r_like(&t, &p), "role=like_matches_the_sql_definition");
+}
+
+// @vt prop=C14 tier=quick bound="text LIKE pattern for every ASCII text of 0..=3 bytes and every ASCII pattern of 0..=3 bytes (all mixes of %, _ and literals; text may itself contain % or _)" outside="longer strings; non-ASCII text (the matcher works per byte); ILIKE (c14_ilike); ESCAPE (ignored by the evaluator); NULL operands" timeout=1800 mem=16
+vt_proof! { unwind = 20; fn c14_like_matcher() {
+    like_shape::<0, 0>(); like_shape::<0, 1>(); like_shape::<0, 2>(); like_shape::<1, 0>();
+    like_shape::<1, 1>(); like_shape::<1, 2>(); like_shape::<1, 3>();
+    like_shape::<2, 1>(); like_shape::<2, 2>(); like_shape::<2, 3>();
+    like_shape::<3, 1>(); like_shape::<3, 2>(); like_shape::<3, 3>();
+    kani::cover!(true, "w:reached_end");
+}}
+
+fn r_ilike(t: &[u8], p: &[u8]) -> bool {
+    if p.is_empty() { return t.is_empty(); }
+    if p[0] == b'%' { return r_ilike(t, &p[1..]) || (!t.is_empty() && r_ilike(&t[1..], p)); }
+    !t.is_empty() && (p[0] == b'_' || p[0].to_ascii_lowercase() == t[0].to_ascii_lowercase()) && r_ilike(&t[1..], &p[1..])
+}
+fn ilike_shape<const TL: usize, const PL: usize>() {
+    let mut t = [0u8; TL]; let mut p = [0u8; PL];
+    let mut i = 0; while i < TL { t[i] = any_ascii(); i += 1; }
+    let mut i = 0; while i < PL { p[i] = any_ascii(); i += 1; }
+    let (ts, ps) = unsafe { (core::str::from_utf8_unchecked(&t), core::str::from_utf8_unchecked(&p)) };
+    assert!(ph::like_match(ts, ps, true) == r_ilike(&t, &p), "role=ilike_matches_the_sql_definition");
+}
+
+// @vt prop=C14 tier=quick bound="text ILIKE pattern (ASCII case-insensitive) for every ASCII text of 0..=3 bytes and pattern of 0..=3 bytes (shapes 1x1, 2x2, 3x2, 2x3, 3x3, 0x1, 1x0)" outside="longer strings; non-ASCII case folding; ESCAPE" timeout=1800 mem=16
+vt_proof! { unwind = 20; fn c14_ilike_matcher() {
+    ilike_shape::<0, 1>(); ilike_shape::<1, 0>(); ilike_shape::<1, 1>(); ilike_shape::<2, 2>();
+    ilike_shape::<3, 2>(); ilike_shape::<2, 3>(); ilike_shape::<3, 3>();
+    kani::cover!(true, "w:reached_end");
+}}
+
+/// LIKE with a NULL operand is NULL: the row is not returned, neither by `NOT LIKE` nor under NOT
+fn like_null_case(null_left: bool, negated: bool, wrap_not: bool) {
+    let c = any_ascii();
+    let mut s = String::with_capacity(1); s.push(c as char);
+    let params = ManuallyDrop::new(if null_left { [OwnedValue::Null, OwnedValue::Text(s)] } else { [OwnedValue::Text(s), OwnedValue::Null] });
+    let (p1, p2) = (P!(1), P!(2));
+    let e = Expr::Like { expr: &p1, negated, pattern: &p2, escape: None, case_insensitive: false };
+    if wrap_not {
+        let n = Expr::UnaryOp { op: UnaryOperator::Not, expr: &e };
+        check_filter!(&n, &*params, None, "role=like_with_null_operand_is_null");
+    } else {
+        check_filter!(&e, &*params, None, "role=like_with_null_operand_is_null");
+    }
+}
+// @vt prop=C14 tier=quick bound="NULL LIKE ?2, ?1 NOT LIKE NULL, NOT (?1 LIKE NULL) as row filters; the non-NULL operand any 1-byte ASCII text" outside="the matcher itself (c14_like_matcher)" timeout=1800 mem=16
+vt_proof_pred! { unwind = 4; fn c14_like_null() {
+    like_null_case(true, false, false); like_null_case(false, true, false); like_null_case(false, false, true);
+    kani::cover!(true, "w:reached_end");
+}}
